@@ -3,14 +3,14 @@
 from .monitors import DEPOSIT_KINDS, PAYOUT_KINDS
 
 OUTCOME, L_SKEL, L_FULL, B_SKEL, B_FULL, L_USED, B_USED, FEE, REGITEM, REGISTRY = range(10)
-LEDGER_OTHERS, LEDGER_SELF, MSGS, TOTALS, PENDING, POOL, OFFER, MSG_TOTALS, CONTENTS, ENV, WFBIT = range(10, 21)
+LEDGER_OTHERS, LEDGER_SELF, MSGS, TOTALS, PENDING, POOL, OFFER, MSG_TOTALS, CONTENTS, ENV, WFBIT, NESTED = range(10, 22)
 
 COMPONENT_NAMES = ["outcome", "listing keys/owner/claimant/status", "listings (all fields)", "bucket keys/owner",
                    "buckets (all fields)", "used listing ids", "used bucket ids", "fee item", "registry item", "registry entries",
                    "ledgers of everybody but the marketplace", "the marketplace's own ledger rows", "outgoing messages (multiset)",
                    "per-asset owed totals + recorded NFTs", "pending fees", "community-pool ledger",
                    "offer tuple (status, goods, ask, whitelist, times)", "per-asset totals of outgoing messages",
-                   "record contents", "clock / admin table", "well-formedness verdict"]
+                   "record contents", "clock / admin table", "well-formedness verdict", "outcomes of the re-entrant calls"]
 
 Q_FEE, Q_OWNER, Q_BUCKETS, Q_WL, Q_MARKET, Q_ROYADDR, Q_SINGLE, Q_MULTI = range(8)
 QUERY_NAMES = ["fee query", "listings by owner", "buckets by owner", "whitelist query", "market query", "royalty address",
@@ -27,8 +27,29 @@ def m(*bits):
 ALL_STATE = m(L_FULL, B_FULL, L_USED, B_USED, FEE, REGISTRY, LEDGER_OTHERS, LEDGER_SELF)
 
 
+REENTRANT_PROPS = {
+    # what a transaction with re-entry (model/Reentry.v) is compared on, for the properties that have a theorem about it
+    "C01": (TOTALS, LEDGER_SELF, MSG_TOTALS, NESTED),
+    "C03": (OUTCOME, L_SKEL, B_SKEL, NESTED),
+    "C04": (L_FULL, B_FULL, LEDGER_OTHERS, NESTED),
+    "C07": (OUTCOME, L_SKEL, B_SKEL, LEDGER_SELF, NESTED),
+    "C08": (OFFER, L_SKEL, NESTED),
+    "C09": (L_USED, B_USED, NESTED),
+    "C10": (PENDING, POOL, NESTED),
+    "C12": (L_FULL, B_FULL, NESTED),
+    "C15": (OUTCOME, NESTED) + (L_FULL, B_FULL, L_USED, B_USED, FEE, REGISTRY, LEDGER_OTHERS, LEDGER_SELF),
+    "C18": (OUTCOME, L_FULL, B_FULL, LEDGER_OTHERS, LEDGER_SELF, NESTED),
+}
+
+
 def step_mask(prop, d):
     """Components compared for property `prop` on a step with descriptor d (runner.step_desc)."""
+    if "reentry" in d["f"]:
+        return m(*REENTRANT_PROPS[prop]) if prop in REENTRANT_PROPS else 0
+    return step_mask1(prop, d)
+
+
+def step_mask1(prop, d):
     k, mk, tag, f = d["k"], d["mk"], d["tag"], d["f"]
     fault = "fault" in f
     hostile = "hostile_sender" in f or tag in ("hostile", "probe_hostile")
